@@ -6,6 +6,12 @@ default/attribute bookkeeping of StrategyDict.  Everything is by equality
 """
 
 
+def stable_repr(v):
+  """ repr without addresses (plain functions carry a _tag). """
+  tag = getattr(v, "_tag", None)
+  return tag if tag is not None else repr(v)
+
+
 def dedupe_keep_last(keys):
   out = []
   for k in reversed(keys):
@@ -104,7 +110,7 @@ class MultiKeyModel(object):
     return probes
 
   def canon(self):
-    return tuple(sorted((repr(g[0]), tuple(repr(k) for k in g[1]))
+    return tuple(sorted((stable_repr(g[0]), tuple(repr(k) for k in g[1]))
                         for g in self.groups))
 
 
@@ -146,5 +152,5 @@ class StrategyModel(MultiKeyModel):
 
   def canon(self):
     base = super(StrategyModel, self).canon()
-    d = None if self.default is self.NO_DEFAULT else repr(self.default)
+    d = None if self.default is self.NO_DEFAULT else stable_repr(self.default)
     return (base, d)
